@@ -1066,6 +1066,11 @@ impl FixtureDatabase {
                     if filename.starts_with("test_") || filename.contains("__pycache__") {
                         continue;
                     }
+                    // A conftest.py shipped inside the package (its own tests) serves its
+                    // directory only; it is not a module of the plugin
+                    if filename == "conftest.py" {
+                        continue;
+                    }
 
                     debug!("Scanning plugin file: {:?}", path);
 
